@@ -802,7 +802,16 @@ func (w *World) stepScan(ctx context.Context, path string, st *Step) {
 			err = sc.Err()
 			return
 		}
-		rows, err = interp.ScanAll(ctx, r.val.T, sc)
+		var each func(n int)
+		if st.PauseAfterRows > 0 && st.PauseNs > 0 {
+			each = func(n int) {
+				if n == st.PauseAfterRows {
+					w.probe("scan-paused")
+					time.Sleep(time.Duration(st.PauseNs))
+				}
+			}
+		}
+		rows, err = interp.ScanAllPaced(ctx, r.val.T, sc, each)
 	}()
 	sr.Err = errString(err)
 	sr.NRows = len(rows)
@@ -917,6 +926,21 @@ func (w *World) addWatcher(n int, f func()) *watcher {
 
 // userPoint is called from user functions.
 func (w *World) userPoint(ctx context.Context, site, kind, key string) error {
+	if w.c.Config.Race && len(w.c.UFaults) == 0 {
+		// Under the race detector every mutex and every atomic operation of the
+		// harness is a happens-before edge between the task goroutines that pass
+		// through here, and would order — and so hide — exactly the unsynchronised
+		// accesses inside bigslice that the detector is there to find. In race
+		// runs without user faults this hook therefore touches no shared state:
+		// it only sleeps its (occurrence-independent) virtual delay, so that
+		// tasks still overlap.
+		if w.c.Config.UserDelays && kind != "nodelay" {
+			if d := simnet.DelayFor(w.c.Config.DelayProfile, w.c.Config.DelaySeed, "u|"+site+"|"+key, 0); d > 0 {
+				time.Sleep(d)
+			}
+		}
+		return nil
+	}
 	w.tick()
 	defer w.enterUser(site)()
 	name := "u|" + site + "|" + key
@@ -944,6 +968,9 @@ func (w *World) userPoint(ctx context.Context, site, kind, key string) error {
 			continue
 		}
 		if f.Times > 0 && cnt-f.Skip >= f.Times {
+			continue
+		}
+		if f.Every > 1 && (cnt-f.Skip)%f.Every != 0 {
 			continue
 		}
 		fire = f
